@@ -500,12 +500,26 @@ Section AnnounceRoundTrip.
     unfold parse_announce_query.
     rewrite parse_query_render.
     2:{ unfold announce_segs. discriminate. }
-    2:{ unfold announce_segs, ev_segs. repeat (apply Forall_cons || apply Forall_app || split); cbn [fst snd];
-        try prove_clean; try (apply urlencode_clean; assumption);
-        try (apply itoa_clean, usize_lt_pow10; assumption); try (apply itoa_clean, usize_lt_pow10; unfold usize_max; lia).
-        - destruct (a_event r); repeat constructor; cbn [fst snd]; prove_clean.
-        - destruct (a_numwant r) as [n|]; repeat constructor; cbn [fst snd]; [prove_clean|apply itoa_clean, usize_lt_pow10, Hnw].
-        - destruct (a_key r) as [k|]; repeat constructor; cbn [fst snd]; [prove_clean|tauto]. }
+    2:{ unfold announce_segs.
+        assert (C : forall k v, clean k -> clean v -> (fun kvp : list N * list N => clean (fst kvp) /\ clean (snd kvp)) (k, v)) by (intros; split; assumption).
+        apply Forall_app. split.
+        { repeat (apply Forall_cons; [apply C; [prove_clean|]|]); [ | | | | | |apply Forall_nil].
+          - apply urlencode_clean; assumption.
+          - apply urlencode_clean; assumption.
+          - apply itoa_clean, usize_lt_pow10. unfold usize_max. lia.
+          - apply itoa_clean, usize_lt_pow10, Hup.
+          - apply itoa_clean, usize_lt_pow10, Hdown.
+          - apply itoa_clean, usize_lt_pow10, Hleft. }
+        apply Forall_app. split.
+        { destruct (a_event r); cbn [ev_segs]; [| | |apply Forall_nil];
+            (apply Forall_cons; [apply C; prove_clean|apply Forall_nil]). }
+        apply Forall_app. split.
+        { destruct (a_numwant r) as [n|]; [|apply Forall_nil].
+          apply Forall_cons; [apply C; [prove_clean|apply itoa_clean, usize_lt_pow10, Hnw]|apply Forall_nil]. }
+        apply Forall_app. split.
+        { destruct (a_key r) as [k|]; [|apply Forall_nil].
+          apply Forall_cons; [apply C; [prove_clean|tauto]|apply Forall_nil]. }
+        apply Forall_cons; [apply C; prove_clean|apply Forall_nil]. }
     unfold announce_segs. cbn [app fold_kv].
     rewrite kv_info_hash, (urldecode20_urlencode _ Hih Hihl).
     rewrite kv_peer_id, (urldecode20_urlencode _ Hpid Hpidl).
@@ -521,14 +535,14 @@ Section AnnounceRoundTrip.
                                  (match ev with EvEmpty => o_event a | e => e end) (o_numwant a) (o_key a))).
     { intros a. destruct ev; try (apply kv_event; discriminate). destruct a; reflexivity. }
     rewrite Hev. cbn [o_info_hash o_peer_id o_port o_left o_uploaded o_downloaded o_event o_numwant o_key].
-    destruct nw as [n|]; cbn [fold_kv].
+    destruct nw as [n|]; cbn [app fold_kv].
     - rewrite kv_numwant, (parse_uint_itoa usize_max _ Hnw (usize_lt_pow10 _ Hnw)).
       cbn [o_info_hash o_peer_id o_port o_left o_uploaded o_downloaded o_event o_numwant o_key].
-      destruct key as [k|]; cbn [fold_kv].
+      destruct key as [k|]; cbn [app fold_kv].
       + destruct Hkey as (Hd & _ & Hl). rewrite kv_key. destruct (Nat.ltb_spec 100 (utf8_length (url_encode k))); [lia|].
         rewrite Hd. rewrite kv_compact. cbn. destruct ev; reflexivity.
       + rewrite kv_compact. cbn. destruct ev; reflexivity.
-    - destruct key as [k|]; cbn [fold_kv].
+    - destruct key as [k|]; cbn [app fold_kv].
       + destruct Hkey as (Hd & _ & Hl). rewrite kv_key. destruct (Nat.ltb_spec 100 (utf8_length (url_encode k))); [lia|].
         rewrite Hd. rewrite kv_compact. cbn. destruct ev; reflexivity.
       + rewrite kv_compact. cbn. destruct ev; reflexivity.
